@@ -63,7 +63,7 @@ Print Assumptions C03_pyslice_in_step.
 
 (** non-vacuity: -u 2 -a ACGT on a read with qualities *)
 Definition ex_o : options :=
-  mkO [2] None None 33 [PSingle [97] (mkAd Back [65;67;71;84] false false true 3 false) [0;0;0;0;0]] 1 ATrim false false
+  mkO [2] None None 33 [PSingle [97] (mkAd Back [65;67;71;84] false false true 3 false) [0;0;0;0;0]] 1 ATrim false false false
       None false None [] [] [] false None None None [] false false false false false false false false.
 Example C03_nonvacuous :
   Forall wf_padapter (o_adapters ex_o) /\
